@@ -26,6 +26,7 @@ PROPS = {
       {'kind': 'replays', 'name': 'replay', 'variant': 'v0'},
       {'kind': 'pbt', 'name': 'dag-totals-v0', 'variant': 'v0', 'prop': 18, 'cases': (1200, 20000), 'prog_max': 700, 'sched_max': 0},
       {'kind': 'pbt', 'name': 'dag-totals-asan', 'variant': 'va', 'prop': 18, 'cases': (300, 6000), 'prog_max': 700, 'sched_max': 0},
+      {'kind': 'fuzz', 'name': 'dag-fuzz', 'target': 'fuzz_dag', 'libs': ['libdr.a'], 'runs': (800, 60000), 'max_len': 600, 'procs': 8},
     ],
   },
   'C19': {
@@ -35,6 +36,7 @@ PROPS = {
       {'kind': 'replays', 'name': 'replay', 'variant': 'v0'},
       {'kind': 'pbt', 'name': 'dag-files-v0', 'variant': 'v0', 'prop': 19, 'cases': (1000, 16000), 'prog_max': 700, 'sched_max': 0},
       {'kind': 'pbt', 'name': 'dag-files-asan', 'variant': 'va', 'prop': 19, 'cases': (250, 5000), 'prog_max': 700, 'sched_max': 0},
+      {'kind': 'fuzz', 'name': 'dag-fuzz', 'target': 'fuzz_dag', 'libs': ['libdr.a'], 'runs': (800, 60000), 'max_len': 600, 'procs': 8},
     ],
   },
   'C15': {
